@@ -356,3 +356,79 @@ pub fn scaled_value(d: &Desc, n: usize) -> Option<Value> {
         _ => None,
     }
 }
+
+/// FlexVec values whose LAST item is large — its sealing offset would lie just below, at and above the
+/// maximum of the offset type. The last item is never sealed, so all of these are legitimate contents of a
+/// large enough buffer. For structs / enums the FlexVec is looked for at the end of the (outermost) tail.
+pub fn flex_big_last(d: &Desc, max_k: usize) -> Vec<Value> {
+    fn at_flex(d: &Desc, item: &Desc, len: &crate::LenTy, max_k: usize) -> Vec<Value> {
+        let small = first_values(item, 1);
+        let lmax = len.max().min(1 << 17) as usize;
+        let mut ks: Vec<usize> = vec![300];
+        for dlt in 0..8usize {
+            ks.push(lmax.saturating_sub(dlt));
+        }
+        ks.push(lmax + 1);
+        ks.retain(|k| *k > 5 && *k <= max_k);
+        ks.sort();
+        ks.dedup();
+        let mut out = vec![];
+        for k in ks {
+            // the item type's own scalable container decides what "k" counts (elements, bytes, items)
+            if let Some(big) = scaled_value(item, k) {
+                // only if the item itself is representable (its own length type can count to k)
+                out.push(Value::Flex(vec![big.clone()]));
+                if let Some(s) = small.first() {
+                    out.push(Value::Flex(vec![s.clone(), big]));
+                }
+            }
+        }
+        let _ = d;
+        out
+    }
+    match d {
+        Desc::Flex { item, len } => at_flex(d, item, len, max_k),
+        Desc::Struct { fields, sized: false } => {
+            let (last, head) = match fields.split_last() {
+                Some(x) => x,
+                None => return vec![],
+            };
+            let hv: Option<Vec<Value>> = head.iter().map(|h| first_values(h, 1).into_iter().next()).collect();
+            match hv {
+                Some(hv) => flex_big_last(last, max_k)
+                    .into_iter()
+                    .map(|t| {
+                        let mut f = hv.clone();
+                        f.push(t);
+                        Value::Struct(f)
+                    })
+                    .collect(),
+                None => vec![],
+            }
+        }
+        Desc::Enum { variants, sized: false, .. } => {
+            for (vi, fs) in variants.iter().enumerate() {
+                if let Some((last, head)) = fs.split_last() {
+                    if !last.is_sized() {
+                        let tails = flex_big_last(last, max_k);
+                        if !tails.is_empty() {
+                            let hv: Option<Vec<Value>> = head.iter().map(|h| first_values(h, 1).into_iter().next()).collect();
+                            if let Some(hv) = hv {
+                                return tails
+                                    .into_iter()
+                                    .map(|t| {
+                                        let mut f = hv.clone();
+                                        f.push(t);
+                                        Value::Enum(vi, f)
+                                    })
+                                    .collect();
+                            }
+                        }
+                    }
+                }
+            }
+            vec![]
+        }
+        _ => vec![],
+    }
+}
